@@ -312,6 +312,10 @@ func execPromise(t []string) string {
 		return execJoinSeq(t[1])
 	case len(t) == 1 && t[0] == "joininflight":
 		return execJoinInflight()
+	case len(t) == 1 && t[0] == "joinnested":
+		return execJoinNested()
+	case len(t) == 2 && t[0] == "recvpending":
+		return execRecvPending(t[1] == "1")
 	case len(t) == 3 && t[0] == "joinrel":
 		return execJoinRel(t[1:])
 	case len(t) == 2 && t[0] == "joinrel":
@@ -477,6 +481,135 @@ func execJoinInflight() string {
 	})
 }
 
+// execJoinNested: z <- a <- b.  a and b each have a call inside their callers; a.Join(z) waits for a's call; b.Join(a)
+// starts while a is pending join; a call Y is made on b while b is pending join.  a's call yields (a joins z), b's
+// call yields (b joins z), z is fulfilled: Y must be delivered exactly once and everything must return.
+func execJoinNested() string {
+	return timed(10*time.Second, func() string {
+		cz := &recCaller{}
+		ga := &gateCaller{gate: make(chan struct{})}
+		gb := &gateCaller{gate: make(chan struct{})}
+		z := capnp.NewPromise(capnp.Method{}, cz)
+		a := capnp.NewPromise(capnp.Method{}, ga)
+		b := capnp.NewPromise(capnp.Method{}, gb)
+		ca, cb := make(chan struct{}), make(chan struct{})
+		go func() { a.Answer().PipelineSend(context.Background(), pathOps(true), capnp.Send{}); close(ca) }()
+		go func() { b.Answer().PipelineSend(context.Background(), pathOps(true), capnp.Send{}); close(cb) }()
+		if !waitUntil(func() bool { return atomic.LoadInt32(&ga.entered) == 1 && atomic.LoadInt32(&gb.entered) == 1 }) {
+			return "setup-failed"
+		}
+		ja, jb := make(chan struct{}), make(chan struct{})
+		go func() { a.Join(z.Answer()); close(ja) }()
+		time.Sleep(30 * time.Millisecond) // a is pending join
+		go func() { b.Join(a.Answer()); close(jb) }()
+		time.Sleep(30 * time.Millisecond) // b is pending join, waiting for a
+		y := make(chan error, 1)
+		go func() {
+			ctx, cancel := context.WithTimeout(context.Background(), 4*time.Second)
+			defer cancel()
+			ans, rel := b.Answer().PipelineSend(ctx, pathOps(true), capnp.Send{})
+			_, err := ans.Struct()
+			rel()
+			y <- err
+		}()
+		time.Sleep(30 * time.Millisecond)
+		ga.gate <- struct{}{} // a's call yields: a joins z, b.Join goes on to wait for b's own call
+		for _, c := range []chan struct{}{ca, ja} {
+			select {
+			case <-c:
+			case <-time.After(2 * time.Second):
+				return "first-join-does-not-finish"
+			}
+		}
+		time.Sleep(30 * time.Millisecond)
+		gb.gate <- struct{}{}
+		for _, c := range []chan struct{}{cb, jb} {
+			select {
+			case <-c:
+			case <-time.After(2 * time.Second):
+				return "second-join-does-not-finish"
+			}
+		}
+		hx, hb := &countHook{}, &countHook{}
+		r, _ := resultWithCaps(hx, hb)
+		z.Fulfill(r)
+		res := "ok"
+		select {
+		case <-y:
+			if n := atomic.LoadInt32(&cz.n) + atomic.LoadInt32(&hx.n); n != 1 {
+				res = "call-made-during-pending-join-delivered-" + strconv.Itoa(int(n)) + "-times"
+			}
+		case <-time.After(5 * time.Second):
+			res = "call-made-during-pending-join-blocked"
+		}
+		a.ReleaseClients()
+		b.ReleaseClients()
+		z.ReleaseClients()
+		return res
+	})
+}
+
+// countReturner counts what a PipelineRecv does with its Recv
+type countReturner struct{ returns, allocs int32 }
+
+func (c *countReturner) AllocResults(sz capnp.ObjectSize) (capnp.Struct, error) {
+	atomic.AddInt32(&c.allocs, 1)
+	_, seg, err := capnp.NewMessage(capnp.SingleSegment(nil))
+	if err != nil {
+		return capnp.Struct{}, err
+	}
+	return capnp.NewStruct(seg, sz)
+}
+func (c *countReturner) Return(error) { atomic.AddInt32(&c.returns, 1) }
+
+// execRecvPending: "promise recvpending <cancelled 0|1>": an incoming pipelined call (PipelineRecv) arrives while the
+// promise is pending resolution (Fulfill waits for a call still inside the caller), with a live or an already
+// cancelled context.  Its Returner must be returned exactly once and its arguments released exactly once.
+func execRecvPending(cancelled bool) string {
+	return timed(8*time.Second, func() string {
+		ga := &gateCaller{gate: make(chan struct{})}
+		a := capnp.NewPromise(capnp.Method{}, ga)
+		go a.Answer().PipelineSend(context.Background(), pathOps(true), capnp.Send{})
+		if !waitUntil(func() bool { return atomic.LoadInt32(&ga.entered) == 1 }) {
+			return "setup-failed"
+		}
+		hx, hb := &countHook{}, &countHook{}
+		res, _ := resultWithCaps(hx, hb)
+		fa := make(chan struct{})
+		go func() { a.Fulfill(res); close(fa) }()
+		time.Sleep(20 * time.Millisecond) // pending resolution
+		ctx, cancel := context.WithCancel(context.Background())
+		if cancelled {
+			cancel()
+		}
+		defer cancel()
+		ret := &countReturner{}
+		var released int32
+		done := make(chan struct{})
+		go func() {
+			a.Answer().PipelineRecv(ctx, pathOps(true), capnp.Recv{ReleaseArgs: func() { atomic.AddInt32(&released, 1) }, Returner: ret})
+			close(done)
+		}()
+		time.Sleep(20 * time.Millisecond)
+		ga.gate <- struct{}{}
+		<-fa
+		select {
+		case <-done:
+		case <-time.After(3 * time.Second):
+			return "PipelineRecv-blocked"
+		}
+		time.Sleep(10 * time.Millisecond)
+		out := "ok"
+		if n := atomic.LoadInt32(&ret.returns); n != 1 {
+			out = "Returner.Return-called-" + strconv.Itoa(int(n)) + "-times"
+		} else if n := atomic.LoadInt32(&released); n != 1 {
+			out = "ReleaseArgs-called-" + strconv.Itoa(int(n)) + "-times"
+		}
+		a.ReleaseClients()
+		return out
+	})
+}
+
 // execJoinRel: "promise joinrel <clients> <seq>": B is joined onto A; pipelined clients were handed out from A
 // (clients&1) and from B (clients&2) before the join; A is fulfilled with a result holding capability X.  seq is a
 // string over a / b (ReleaseClients on A / B, repeats are harmless by contract) and x / y (a call through the client
@@ -630,10 +763,18 @@ func joinSeq(r *lib.Rng, n int) string {
 	var ops []string
 	var root []int
 	var joined, resolved []bool
+	// a few promises to begin with (chains of two hops need three)
+	for k := 2 + r.Intn(3); k > 0; k-- {
+		ops = append(ops, "n")
+		root = append(root, len(root))
+		joined = append(joined, false)
+		resolved = append(resolved, false)
+	}
+	n += len(ops)
 	for len(ops) < n {
 		np := len(root)
 		switch t := r.Intn(10); {
-		case np == 0 || (t == 0 && np < 5):
+		case np == 0 || (t == 0 && np < 5 && r.Bool()):
 			ops = append(ops, "n")
 			root = append(root, np)
 			joined = append(joined, false)
@@ -672,6 +813,27 @@ func joinSeq(r *lib.Rng, n int) string {
 			ops = append(ops, "r"+strconv.Itoa(i))
 		}
 	}
+	// wind down: resolve every chain, every promise releases (some twice), in a random order
+	for i := range root {
+		if !joined[i] && !resolved[i] {
+			ops = append(ops, "f"+strconv.Itoa(i))
+			resolved[i] = true
+		}
+	}
+	order := make([]int, len(root))
+	for i := range order {
+		order[i] = i
+	}
+	for i := len(order) - 1; i > 0; i-- {
+		j := r.Intn(i + 1)
+		order[i], order[j] = order[j], order[i]
+	}
+	for _, i := range order {
+		ops = append(ops, "r"+strconv.Itoa(i))
+		if r.Intn(4) == 0 {
+			ops = append(ops, "r"+strconv.Itoa(i))
+		}
+	}
 	return strings.Join(ops, ",")
 }
 
@@ -681,6 +843,9 @@ func genC11(rec *lib.Rec, r *lib.Rng, thorough bool) {
 		rec.Op("S", "promise joinpending", true)
 		rec.Op("S", "promise joinchain", true)
 		rec.Op("S", "promise joininflight", true)
+		rec.Op("S", "promise joinnested", true)
+		rec.Op("S", "promise recvpending 0", true)
+		rec.Op("S", "promise recvpending 1", true)
 		for which := 0; which <= 3; which++ {
 			for _, seq := range []string{"ab", "ba", "xbyaxy", "bbxya", "aaybx", "xybbaaxy", "bxbaybx", "yabab", "b", "a", ""} {
 				rec.Op("S", "promise joinrel "+strconv.Itoa(which)+" "+seq, true)
